@@ -223,6 +223,9 @@ def check_reuse(x1, x2, p, fname):
 
 
 def replay(rep):
+    if rep['replay'].get('protocol') == 'values_only':
+        from props import _purity
+        return _purity.replay_protocol(rep['replay'])
     r = rep['replay']; x = vlib.unhexv(r['x'])
     if r.get('kind') == 'dtype':
         import spectrum as _sp
@@ -521,3 +524,7 @@ def run(ctx):
                 ctx.violation('dtype/%s/%s' % (fname, tag), '%s on %s data (values exactly representable) differs from the result on the same samples in double precision' % (fname, tag), rep)
         except Exception as e:
             ctx.violation('dtype/%s/%s' % (fname, tag), '%s raised %r on %s data' % (fname, e, tag), rep)
+
+    # ---------------- results depend on the VALUES given only: call protocol (repeat, aliasing, buffer reuse, memory layout, integer / single-precision dtypes)
+    from props import _purity
+    _purity.run_protocol(ctx, ['arcovar', 'modcovar', 'arcovar_marple', 'modcovar_marple'])
